@@ -8,11 +8,13 @@
   `Hue.Bits` (the same definitions the driver runs against the implementation): the `u8 → float → u8` round trip on all
   256 hues, the named identities `0 = 360 = −360`, `180 = −180`, whole-turn shifts of integer angles.
 
-  Stated but NOT proved here (covered by the exhaustive scan of every f32 pattern with |x| ≤ 2^20 in the thorough tier):
-    for every `x : Float32`, |x| ≤ 2^20:  −180 − ulp x ≤ normS32 x ≤ 180 + ulp x,  −ulp x − 360·2^-149 ≤ normU32 x ≤ 360,
-    and (normS32 x − x), (normU32 x − x) are within max (ulp x) (ulp result) of a multiple of 360.
-  What is missing is a rounding-error analysis of the two formulas on the IEEE model (no such theory in Mathlib);
-  `normalize_range_f32_partial` below decides the statement on the boundary patterns only.
+  The clause over ALL floats — for every `x` with |x| ≤ 2^20:  −180 ≤ normS x ≤ 180 + ulp x,  −ulp x − 360·(least subnormal) ≤
+  normU x ≤ 360, both within half an ulp of the result of `x − 360k` — is NOT proved in this file but IS proved elsewhere, for
+  every bit pattern, through the IEEE reasoning layer `PaletteProofs/Ieee/*`:
+    f32:  `C11_HueAll.lean` (`normU32_range_all`, `norm*32_congruent_all`, `normS32_lower_all`), `C11_HueAllS.lean` (`normS32_range_all`);
+    f64:  `C11_HueAll64.lean`, `C11_HueAllS64.lean` (same names with `64`);
+    float equality of whole-turn shifts on integer angles: `C11_HueEq.lean`; float → `u8` over every f32: `C11_HueU8.lean`.
+  `normalize_range_f32_partial` below (kept unchanged) decides the f32 statement on 20 boundary patterns by kernel evaluation.
 -/
 import PaletteProofs.Real
 import PaletteModel.Hue
@@ -519,7 +521,9 @@ theorem octant_angles_f64 : ∀ i : Fin 16,
     angleEq64 (degF64 i.val) (degF64 i.val - Float.ofBits 0x40e1940000000000) = true ∧
     angleEq64 (degF64 i.val) (degF64 (i.val + 1)) = false := by decide +kernel
 
-/-- The f32 range clause on the boundary patterns (the statement over *all* patterns with |x| ≤ 2^20 is in the header):
+/-- The f32 range clause on the boundary patterns, by kernel evaluation (the statement over *all* patterns with |x| ≤ 2^20 is
+    `C11.normU32_range_all` / `C11.normS32_range_all` in `C11_HueAll.lean` / `C11_HueAllS.lean`, and for f64 in `C11_HueAll64.lean` /
+    `C11_HueAllS64.lean`; this theorem is kept as an independent, evaluation-only check of those):
     at `±180`, `±360`, `±2^20` and their neighbours one ulp away, just below zero and at ±0, the signed form is within
     one ulp of the stored angle of `[−180, 180]` (2^-16 = 0x37800000 is the ulp at 180) and the unsigned one inside `[0, 360]`.
     Bit patterns: 180 = 0x43340000, 360 = 0x43b40000, 2^20 = 0x49800000, −1e-10 = 0xaedbe6ff, −MIN_POSITIVE = 0x80800000. -/
